@@ -667,7 +667,7 @@ def run(chk):
     ents = entries()
     # ---------------------------------------------------------------- correspondence
     lines, meta = [], []           # meta: (kind, payload)
-    per_entry = 110 if chk.quick else 1200
+    per_entry = 110 if chk.quick else 2500
     batch = []
     for ent in ents:
         spec, layer, constr, module, fn = ent
@@ -713,8 +713,8 @@ def run(chk):
                     seen_keys.add(key)
                     chk.violation(key, what, case)
     seen_keys = set()
-    contexts = 3 if chk.quick else 24
-    pairs_per_entry = 130 if chk.quick else 4000
+    contexts = 3 if chk.quick else 60
+    pairs_per_entry = 130 if chk.quick else 12000
     sweep_jobs, pair_jobs = oracle_jobs(contexts, pairs_per_entry)
     # one process pool for the Python side of the correspondence and the base dose of the oracle
     alljobs = [('eval', ch) for ch in chunks] + [('sweep', j) for j in sweep_jobs] + [('pairs', j) for j in pair_jobs]
